@@ -100,6 +100,21 @@ def cases(draw, max_steps):
             e = dict(op="listop", obj=last["obj"], attr="jobs", method=m, args=args)
             if m == "pop" and not cur["objs"][last["obj"]]["jobs"]:
                 e = dict(e, method="append", args=[j])
+        elif last is not None and last.get("op") == "listop" and not last.get("purge") and \
+                last["obj"] in cur["objs"] and len(set(cur["objs"][last["obj"]][last["attr"]])) < \
+                len(cur["objs"][last["obj"]][last["attr"]]) and draw(st.floats(0, 1)) < 0.4:
+            # the list holds an element twice: one occurrence is taken out again
+            lst_ = cur["objs"][last["obj"]][last["attr"]]
+            dup = sorted(x for x in set(lst_) if lst_.count(x) > 1)
+            x = draw(st.sampled_from(dup))
+            m = draw(st.sampled_from(["remove", "pop", "delitem", "setitem"]))
+            pos = draw(st.sampled_from([i_ for i_, y in enumerate(lst_) if y == x]))
+            other = [y for y in lst_ if y != x]
+            args = {"remove": [x], "pop": [pos], "delitem": [pos],
+                    "setitem": [pos, other[0] if other else x]}[m]
+            e = dict(op="listop", obj=last["obj"], attr=last["attr"], method=m, args=args)
+            if m == "setitem" and draw(st.booleans()):
+                e["arg_as"] = "own"
         elif k == "purge":
             if "job_purge" not in cur["objs"] or not steps_ or "job_purge" in S.spec_reachable(cur):
                 e = draw(G.list_edit(cur, mutators=True, noops=True))
